@@ -98,7 +98,13 @@ def run(ctx):
         spec = cs[0].spec
         ref = one_shot_objects(cdc, data, spec, T)
         if ref[2] != 'stop' or len(ref[1]) != len(cs):
-            continue      # not a stream of valid encodings for this decoder (reported by C01/C02)
+            ctx.stats['skipped: the complete input does not decode to as many objects as were encoded'] += 1
+            # never seen on an intact tree (the F01 class is filtered by the generator): without a one-shot reference
+            # there is nothing to compare schedules with, and the stream of encoder outputs is not what C05 quantifies over
+            fids = [codec.classify_roundtrip(T, c.v, cdc, True) for c in cs]
+            ctx.prop_fail('the complete stream of %d encoder outputs decodes to %d objects, outcome %r: no one-shot reference' % (len(cs), len(ref[1]), ref[2]),
+                          {'codec': cdc, 'T': T, 'data': data.hex()}, finding=next((f for f in fids if f), None))
+            continue
         ctx.stats['codec:' + cdc] += 1
         ctx.stats['len:%d' % min(len(data), 40)] += 1
         scheds = []
